@@ -93,6 +93,9 @@ def opReturn (o : IOp) (ts : List ETy) : Except String ETy :=
       match a.ty.layer with
       | .scalar _ => .ok (scalarTy .bool).r
       | .vector _ x => .ok (Ty.r ⟨{}, .vector .bool x⟩)
+      | .matrix _ x y =>
+        if logicalNotHasMatrixArm then .ok (Ty.r ⟨{}, .matrix .bool x y⟩)
+        else .error "intrinsics.rs: invalid logical not intrinsic"
       | _ => .error "intrinsics.rs: invalid logical not intrinsic"
     | .other => .error "unmodelled intrinsic operator"
 
